@@ -128,6 +128,12 @@ func remoteReadAt(client *http.Client, url string, p []byte, off int64) (n int, 
 		return 0, err
 	}
 	defer resp.Body.Close()
+	// Only a 206 carries the requested range. A 200 means the server ignored the Range header and
+	// sends the file from its start (fine only for a read at offset 0); anything else is an error
+	// page whose body must not be returned as file content (and then be cached by the range cache).
+	if resp.StatusCode != http.StatusPartialContent && !(resp.StatusCode == http.StatusOK && off == 0) {
+		return 0, fmt.Errorf("remote read of %s at offset %d: unexpected HTTP status %d", url, off, resp.StatusCode)
+	}
 	{
 		n, err := io.ReadFull(resp.Body, p)
 		if err != nil {
